@@ -487,8 +487,7 @@ def _check_async(case):
                                         ep.MESSAGE, f))))
                         if s == 'reconnect_fail':
                             loop.run_until_idle()
-                            if live[0].done():
-                                final[0] = True
+                            update_final()
                 elif s == 'emit':
                     before = len(h.outbox)
                     emits.append((loop.spawn(sc.emit('x', 1)), before))
